@@ -148,6 +148,27 @@ claim("C19", "model_checking",
       "TLA+ contract spec (ExprContracts.tla over Expr.tla) evaluated by TLC over answers of the real "
       "printer/parser; inputs are TLC-generated behaviours of ExprGen.tla")
 
+claim("C18", "model_checking",
+      "every compound expression up to the node bound over sums, products, powers and calls (TLC-enumerated) plus "
+      "simulated larger ones with quotients and subscripts is given to the real collapse_constants with every subset "
+      "of its variables declared free; TLC judges each answer (same value with the hoisted assignments carried out, "
+      "no free variable in a hoisted term, every new variable assigned once, no exception)",
+      "trusted: expression conversion; integer/boolean value comparison; expression classes restricted to those the "
+      "property names",
+      "TLA+ contract spec (ExprContracts.tla over Expr.tla) evaluated by TLC over answers of the real "
+      "collapse_constants; inputs are TLC-generated behaviours of ExprGen.tla")
+
+claim("C17", "model_checking",
+      "every template up to the node bound over free variables p, q (TLC-enumerated) is matched by the real match() "
+      "against instances of itself (plain, shuffled, identity operand dropped), unrelated expressions and other "
+      "templates' instances, with two free-variable sets and consistent/contradicting pre-matches; TLC judges every "
+      "returned substitution (binds only free variables, agrees with the pre-match, template[sigma] has the value of "
+      "the target under all small valuations and two function interpretations; otherwise ValueError)",
+      "trusted: expression conversion and the harness's own substitution used to build targets; values on integers; "
+      "two interpretations stand for 'all interpretations'",
+      "TLA+ contract spec (ExprContracts.tla: Subst/Eval of Expr.tla) evaluated by TLC over answers of the real "
+      "match(); templates are TLC-generated behaviours of ExprGen.tla")
+
 NOT_YET = "check not built yet (work in progress, see DESIGN.md section 11)"
 NOT_APPLICABLE = {}
 
